@@ -12,13 +12,14 @@ MUT = "/tmp/mut"
 
 
 def src_of(pid, n):
-    """(directory, file number) of mutant n: 1,2 = round 1 (out1/), 3,4 = round 2 (out/)."""
+    """(directory, file number) of mutant n: 1,2 = round 1 (out1/), 3,4 = round 2 (out2/), 5,6 = round 3 (out/)."""
+    if n >= 5:
+        return f"{MUT}/{pid}/out", n - 4
     if n >= 3:
-        return f"{MUT}/{pid}/out", n - 2
+        d = f"{MUT}/{pid}/out2"
+        return (d if os.path.exists(d) else f"{MUT}/{pid}/out"), n - 2
     d = f"{MUT}/{pid}/out1"
     return (d if os.path.exists(d) else f"{MUT}/{pid}/out"), n
-ENV = dict(os.environ, CARGO_NET_OFFLINE="true")
-KNOWN_BAD = {"basic_osu", "rng_mania_hitresults"}
 
 
 def sh(cmd, cwd, timeout=3600):
@@ -104,7 +105,7 @@ def store(pid, n, extra):
     json.dump(meta, open(f"{dst}/meta.json", "w"), indent=1)
 
 
-ROUND = (3, 4) if os.environ.get("MUT_ROUND") == "2" else (1, 2)
+ROUND = {"2": (3, 4), "3": (5, 6)}.get(os.environ.get("MUT_ROUND", "1"), (1, 2))
 
 
 def sweep(ids):
